@@ -46,9 +46,9 @@ Proof.
   intros HI HPW HR HP Hop Hns H. pose proof (INV_UH _ HI) as HU.
   destruct o; try destruct Hns.
   - eapply connect_PROTO; [exact HP | apply new_worker_unknown; assumption | | exact H]. intros x t jr Hx. eapply new_worker_view; eassumption.
-  - cbn [step] in H. change s' with (fst (s', outs)). eapply handle_submit_array_PROTO; [exact HP | exact HU | | exact Hop | exact H].
+  - cbn [step] in H. destruct (bad_submit_lengths _ _); [inversion H; subst; exact HP|]. change s' with (fst (s', outs)). eapply handle_submit_array_PROTO; [exact HP | exact HU | | exact Hop | exact H].
     exact (inv_fresh _ HI).
-  - cbn [step] in H. destruct (bad_graph_rq _ _); [inversion H; subst; exact HP|].
+  - cbn [step] in H. destruct (bad_graph_rq _ _); [inversion H; subst; exact HP|]. destruct (dead_dep _ _ _); [inversion H; subst; exact HP|].
     change s' with (fst (s', outs)). eapply handle_submit_graph_PROTO; [exact HP | exact HU | | | exact H].
     + exact (inv_fresh _ HI).
     + cbn [op_ok] in Hop. rewrite forallb_forall in Hop. exact Hop.
